@@ -29,6 +29,9 @@ func (r *RdbReader) Read(p []byte) (int, error) {
 func (r *RdbReader) newParser(t byte, l *Loader) Parser {
 	p, err := NewParser(t, l.rdbVersion, l.options.targetRedisVersion, l.options.targetFunctionExists)
 	panicIfErr(err)
+	if sp, ok := p.(*StreamParser); ok {
+		sp.idleConsumers = l.options.streamIdleConsumers
+	}
 	p.ReadBuffer(l)
 	return p
 }
